@@ -1,0 +1,38 @@
+//go:build verif
+
+package fasthttp
+
+import "io/fs"
+
+// Thin pass-through wrappers for the C23 (FS path confinement) verification harness under /verif.
+// Compiled only with -tags verif; they add no behaviour.
+
+// VerifStripLeadingSlashes runs stripLeadingSlashes on a copy of path; panicked reports its sanity-check panic.
+func VerifStripLeadingSlashes(path []byte, n int) (out []byte, panicked bool) {
+	defer func() {
+		if recover() != nil {
+			out, panicked = nil, true
+		}
+	}()
+	return stripLeadingSlashes(append([]byte(nil), path...), n), false
+}
+
+// VerifHasDotDotPathSegment exposes hasDotDotPathSegment.
+func VerifHasDotDotPathSegment(path []byte) bool { return hasDotDotPathSegment(path) }
+
+// VerifPathToFilePath runs fsHandler.pathToFilePath the way handleRequest calls it, for a handler with the
+// given (already normalised) root on the default filesystem (fsys == nil) or on fsys.
+func VerifPathToFilePath(fsys fs.FS, root string, path []byte) string {
+	h := &fsHandler{filesystem: fsys, root: root}
+	if fsys == nil {
+		h.filesystem = &osFS{}
+	}
+	hasTrailingSlash := len(path) > 0 && path[len(path)-1] == '/'
+	return h.pathToFilePath(append([]byte(nil), path...), hasTrailingSlash)
+}
+
+// VerifFilePathToCompressed exposes fsHandler.filePathToCompressed.
+func VerifFilePathToCompressed(root, compressRoot, filePath string) string {
+	h := &fsHandler{filesystem: &osFS{}, root: root, compressRoot: compressRoot}
+	return h.filePathToCompressed(filePath)
+}
